@@ -161,6 +161,10 @@ func cmdCheck(argv []string) int {
 	if *prop == "C05" && *only == "" {
 		extraReps = append(extraReps, typestateCheck(l, *prop)...)
 	}
+	if (*prop == "C05" || *prop == "C11" || *prop == "C12" || *prop == "C01" || *prop == "C04") && *only == "" {
+		// the bank model's "BurnCoins fails only for insufficient funds" presupposes the module account's permissions
+		extraReps = append(extraReps, maccPermsCheck(*prop))
+	}
 	known := loadKnown()
 	shortFor := map[string]bool{}
 	for _, kf := range known.Findings {
